@@ -4,7 +4,10 @@ from . import c01
 
 PROP = 'C02'
 LEVEL = 'exploration'
-INVARIANTS = ('cb_twice', 'success_not_committed', 'success_wrong_result', 'failed_but_committed', 'dup_in_G')
+from ..oracle import INV_PROP
+INVARIANTS = ('cb_twice', 'success_not_committed', 'success_wrong_result', 'failed_but_committed', 'dup_in_G',
+              'request_id_reused_while_pending')
+INV_PROP['request_id_reused_while_pending'] = PROP
 RULE = ('one case = one seeded execution under the C01 schedule space with submissions through leaders, followers and deposed '
         'leaders, command queue limits 0-3, commandsWaitLeader on/off; every submission has a unique tag and a callback; '
         'distinct = distinct event/state log digest; non-trivial = at least one SUCCESS callback and at least one non-SUCCESS '
@@ -13,6 +16,40 @@ COMPONENTS_REAL = REAL_CLUSTER
 COMPONENTS_STUB = STUB_CLUSTER
 ASSUMPTIONS = ASSUME_CLUSTER + ['sync calls are issued as async calls with a callback (the tick engine has no caller threads; C19 covers sync calls)']
 BUDGET = dict(quick=dict(runs=640, wall=75, per_run_wall=60), thorough=dict(runs=60000, wall=900, per_run_wall=120))
+
+
+class RequestTap(object):
+    """Forwarded commands are matched with their answers by (requester address, request id) only.  A node that sends a
+    request with an id it has used for another command whose answer may still arrive (no answer delivered yet) has set up
+    the misrouting: the old answer binds the new command's callback to the old command's log position (SUCCESS with
+    another command's result, or a failure reason for a command that is applied).  Reported at the second send - whether
+    the old answer is still on its way is the scheduler's choice."""
+
+    def __init__(self, world, oracle):
+        self.w = world
+        self.o = oracle
+        self.pending = {}        # host -> {request id: (incarnation, command bytes)}
+
+    def on_send(self, src, node, msg, ok):
+        if not isinstance(msg, dict) or msg.get('type') != 'apply_command' or 'request_id' not in msg:
+            return
+        h = self.w.hosts[src]
+        if h.doomed:
+            return
+        p = self.pending.setdefault(src, {})
+        rid = msg['request_id']
+        cmd = bytes(msg['command'])
+        old = p.get(rid)
+        if old is not None and old[1] != cmd:
+            self.o.flag('request_id_reused_while_pending',
+                        'host %d (incarnation %d) sends a forwarded command with request id %r, which it used (incarnation %d) for another command that has not been answered yet' % (
+                            src, h.inc, rid, old[0]), dict(host=src))
+        p[rid] = (h.inc, cmd)
+        self.w.probe('forwarded_commands')
+
+    def on_recv(self, dst, node, msg):
+        if isinstance(msg, dict) and msg.get('type') == 'apply_command_response':
+            self.pending.get(dst, {}).pop(msg.get('request_id'), None)
 
 
 class C02Spec(c01.C01Spec):
@@ -28,6 +65,9 @@ class C02Spec(c01.C01Spec):
         cfg['sched']['max_subs'] = 300 if tier == 'thorough' else 200
         cfg['sched']['quiet_rounds'] = 60
         return cfg
+
+    def make_tap(self, world, oracle):
+        return RequestTap(world, oracle)
 
     def nontrivial(self, res):
         sm = res['summary']
